@@ -109,6 +109,27 @@ func checkC10(c *run.Ctx) {
 			used[key] = true
 			entries = append(entries, c10Entry{key, text()})
 		}
+		if mix(i, 3, 25) == 0 {
+			// values that grow large through expansion: a runtime variable of 70000-200000 bytes copied into the block,
+			// and a chain doubling 1 KiB up to 128 KiB; later entries and the step read them back
+			blob := "BLOB_" + fmt.Sprint(i%3)
+			if envKind != 4 {
+				rt[blob] = strings.Repeat("B", []int{65536, 65537, 70000, 200000}[r.IntN(4)]) + "!"
+			}
+			big := []c10Entry{{"BIG", "${" + blob + "}"}, {"D0", strings.Repeat("d", 1024)}}
+			for k := 1; k <= 7; k++ {
+				big = append(big, c10Entry{fmt.Sprintf("D%d", k), fmt.Sprintf("${D%d}${D%d}", k-1, k-1)})
+			}
+			big = append(big, c10Entry{"AFTER_BIG", "${D7:0:5}|${D6:65530}|${BIG:0:3}|${BIG:65534}"})
+			for _, e := range big {
+				if !used[e.K] {
+					used[e.K] = true
+					entries = append(entries, e)
+				}
+			}
+			feat["large-values"] = true
+			c.Count("blocks_with_values_beyond_64KiB", 1)
+		}
 		for _, e := range entries {
 			if _, ok := rt[e.K]; ok {
 				feat["runtime-overlap"] = true
